@@ -96,6 +96,14 @@ def run(ctx):
                 if not (len(y) == d and all(common.close(yi, float(w) * scale_s, sc) for yi, w in zip(y, want))):
                     ctx.fail(case, [float(v) for v in y][:16], [float(w) * scale_s for w in want][:16], where=f"bind-formula-{alg}")
 
+                # integer-typed operands (same vectors, dtype int): the result must not depend on the array dtype
+                if kind in ("basis", "structured") and all(float(x).is_integer() for x in list(fa) + list(fb)) and d <= 16:
+                    yi = A.bind(np.array(fa, dtype=int), np.array(fb, dtype=np.int64))
+                    ctx.count(f"bind-int {alg} {case['a']} {case['b']}", nontrivial=nontriv, branch=f"bind-{alg}-int-dtype")
+                    if not (len(yi) == d and np.allclose(np.asarray(yi, float), np.asarray(y, float), rtol=0, atol=1e-9 * max(1.0, sc))):
+                        ctx.fail(dict(case, dtype="int"), [float(v) for v in yi][:16], [float(v) for v in y][:16],
+                                 where=f"bind-int-dtype-{alg}")
+
                 def cb(st, payload, case=case, y=y, sc=sc, m=m):
                     if st != "ok":
                         ctx.diff(case, "value", f"{st} {payload}", op="bind")
@@ -127,11 +135,18 @@ def run(ctx):
                                   "b": common.qvec(fb), "c": str(c)}, list(map(float, l))[:8], list(map(float, r))[:8],
                                  where=f"law-{name}-{alg}")
             # --- matrices ----------------------------------------------------------------
+            kept = []          # (matrix object as returned, copy taken at once, case): checked again after later calls
             for v in (sv[4], sv[3], sv[2]):
                 fv = fl(v)
                 for swap in (False, True):
                     M = A.get_binding_matrix(fv, swap_inputs=swap)
                     case = {"op": "mat", "alg": alg, "d": d, "v": common.qvec(fv), "swap": int(swap)}
+                    kept.append((M, np.array(M, copy=True), case))
+                    if all(float(x).is_integer() for x in fv):
+                        Mi = np.asarray(A.get_binding_matrix(np.array(fv, dtype=int), swap_inputs=swap), float)
+                        if Mi.shape != np.asarray(M).shape or not np.allclose(Mi, M, rtol=0, atol=1e-12 * (1 + float(np.abs(fv).max()))):
+                            ctx.fail(dict(case, dtype="int"), "matrix for the int-typed vector differs", "same matrix as for the "
+                                     "float-typed vector", where=f"binding-matrix-int-dtype-{alg}")
                     ctx.count(f"mat {alg} {case['v']} {swap}", nontrivial=any(v), branch=f"mat-{alg}-swap{int(swap)}")
                     # oracle: M @ a equals the direct operation for probe vectors
                     for a in (sv[5], basis[d // 2], basis[0]):
@@ -181,6 +196,13 @@ def run(ctx):
                         ctx.diff({"op": "invmat", "alg": alg, "d": d}, "matrix", f"{st}", op="invmat")
                 if not nd and d <= 36 and v is sv[4]:
                     ctx.ask("invmat", [alg, d], cbim)
+            # a matrix handed out for a fixed vector keeps giving that vector's operation after later calls
+            A.bind(fl(sv[5]), fl(sv[4]))
+            for M, M0, case in kept:
+                ctx.count(f"mat-kept {alg} {case['v']} {case['swap']}", branch=f"mat-{alg}-kept")
+                if not np.array_equal(np.asarray(M), M0):
+                    ctx.fail(dict(case, history="later get_binding_matrix / bind calls"), "the returned matrix changed afterwards",
+                             "the matrix for a fixed vector is a value of its own", where=f"binding-matrix-aliased-{alg}")
             # --- unequal lengths ------------------------------------------------------------
             for d2 in {d + 1, max(1, d - 1), d * 4, 4 * d + 5} - {d}:
                 case = {"op": "bind-len", "alg": alg, "da": d, "db": d2}
